@@ -30,7 +30,11 @@ POOLS = [
     ['a', 'b', 'c', 'd', 'e', 'f', 'g', 'h', 'i', 'j'],
     # multi-character names, names that are characters of other names, a space, a non-ASCII letter
     ['x1', 'xm', 'm', 'y1', 'my', 'n 3', 'ü', 'q_7', 'lag', '1'],
+    [],                                       # (index 2 = TS_POOL: names computed from the DAG, see gen.ts_names)
+    # canonical decimal integers, some of two digits ('10' < '2' as text, 10 > 2 as a number), names inside names
+    ['10', '2', '3', '11', '1', '20', '100', '12', '21', '0'],
 ]
+NUM_POOL = 3
 
 
 TS_POOL = 2          # names computed from the DAG so that every edge respects time; built as a TimeSeriesCausalGraph
@@ -344,10 +348,10 @@ def graph_cases(tier, rng):
                 yield n, e, TS_POOL                       # the same graphs as time-series graphs
         five = list(gen.all_labelled_dags(5))
         for e in rng.sample(five, 6000):
-            yield 5, e, rng.randrange(3)
+            yield 5, e, rng.randrange(4)
         for _ in range(600):
             n = rng.choice([6, 7])
-            yield n, gen.random_dag(rng, n, p=rng.choice([0.25, 0.4, 0.6])), rng.randrange(3)
+            yield n, gen.random_dag(rng, n, p=rng.choice([0.25, 0.4, 0.6])), rng.randrange(4)
         # a seeded sample of the 32 768 topological shapes on 6 nodes (all of them in the thorough tier)
         pairs6 = [(i, j) for i in range(6) for j in range(i + 1, 6)]
         for mask in rng.sample(range(1 << len(pairs6)), 6000):
@@ -365,7 +369,7 @@ def graph_cases(tier, rng):
             yield 6, e, (1 if k % 7 == 3 else TS_POOL if k % 7 == 4 else 0)
         for _ in range(1500):
             n = rng.choice([7, 8])
-            yield n, gen.random_dag(rng, n, p=rng.choice([0.2, 0.3, 0.45])), rng.randrange(3)
+            yield n, gen.random_dag(rng, n, p=rng.choice([0.2, 0.3, 0.45])), rng.randrange(4)
 
 
 def error_cases(tier, rng):
